@@ -94,6 +94,9 @@ def generate(seed, tier="quick", faults=True, light=False, **kw):
         # the directory arguments spelled with a trailing slash or "/."
         plan["in_suffix"] = r.choice(["", "", "", "/", "/."])
         plan["out_suffix"] = r.choice(["", "", "", "/"])
+    if entry in ("cli", "files") and not plan.get("out_suffix") and r.random() < 0.12:
+        # the output location given relative to the working directory (a bare name, or ./name)
+        plan["rel_out"] = r.choice(["bare", "dot"])
     if dump and r.random() < 0.3:
         xdisk["files"][dump] = "0.0.0.0\tstale map line from an earlier run\n" * r.randint(1, 60)
         if r.random() < 0.5:
@@ -225,7 +228,7 @@ def build_world(plan, drop=()):
     for p, t in plan["xdisk"]["files"].items():
         disk["files"][p] = t.encode("latin-1") if isinstance(t, str) else t
     step = {"entry": plan["entry"], "opts": plan["opts"], "in": plan["in"], "out": plan["out"], "dump": plan["dump"],
-            "in_suffix": plan.get("in_suffix", ""), "out_suffix": plan.get("out_suffix", "")}
+            "in_suffix": plan.get("in_suffix", ""), "out_suffix": plan.get("out_suffix", ""), "rel_out": plan.get("rel_out")}
     sysfaults = [f for f in plan["faults"] if f["kind"] not in ("undecodable", "out_is_dir", "out_parent_is_file")]
     pre = []
     if plan.get("pre_same_run") and not any(f["kind"] in ("crash", "interrupt") for f in sysfaults):
